@@ -2,8 +2,10 @@
    corr = the executable model's answer equals the implementation's observed answer (boolean + error flag; messages are not compared);
    prop = the observed answer is the reference `existsb overlapsb` over the parsed pairs (Overlap.check_overlap, proved equivalent to
           "true exactly when some voxel of the first argument and some voxel of the second are related by ancestor-or-equal on both
-          axes") — independent of either algorithm. The property quantifies over valid IDs (spatial form: the documented altitude domain);
-          on other inputs only the correspondence is checked. *)
+          axes") — independent of either algorithm. The property quantifies over valid IDs (spatial form: the documented altitude domain).
+          When some member lies outside the quantifier the per-member fallback Overlap.check_fallback is applied instead of `true`:
+          `false` without error ⇒ no two in-quantifier members are related; `true` ⇒ both lists non-empty.
+   An error must come with `false` (documented "(false, err)"): any other payload is rejected (corr and prop false). *)
 From Coq Require Import ZArith String List Bool.
 From SID Require Import Base Str Ids Wire ZoomCore ChangeZoom Radix Digits Overlap.
 Import ListNotations.
@@ -12,13 +14,19 @@ Open Scope Z_scope.
 (* observed (bool, error) pair ↔ result bool *)
 Definition res_val (r : result bool) : val := match r with Ok b => VB b | Err => VE (VB false) end.
 Definition obs_res (v : val) : option (result bool) :=
-  match v with VB b => Some (Ok b) | VE _ => Some Err | _ => None end.
+  match v with VB b => Some (Ok b) | VE (VB false) => Some Err | _ => None end.   (* (true, err) is not an admissible observation *)
 Definition res_eqb (a b : result bool) : bool :=
   match a, b with Ok x, Ok y => Bool.eqb x y | Err, Err => true | _, _ => false end.
 
-(* zoom fields so large that 2^|dz| could not be evaluated are never generated; such a case (the shrinker cannot produce one either) is refused *)
-Definition zoom_small (i : eid) : bool := (Z.abs (eh i) <? 300) && (Z.abs (ev i) <? 300).
-Definition ext_small (s : string) : bool := match parse_eid s with Some i => zoom_small i | None => true end.
+(* Zoom fields above 62 are never generated and are refused (bad_case, never a pass): a zoom drop |dz| >= 63 makes the Go code evaluate
+   int64(math.Pow(2, |dz|)), which saturates (amd64: MinInt64) where the model computes the exact 2^|dz| — outside the property's quantifier
+   (zooms 0..35) and outside what the correspondence claims. With every zoom field <= 62 the drop is <= 62 (the target zoom is checked to be
+   in 0..35 first), the power is exact, and every int64 index agrees. Negative zoom fields make the target negative: refused before any arithmetic. *)
+Definition zoom_small (i : eid) : bool := (-300 <? eh i) && (eh i <=? 62) && (-300 <? ev i) && (ev i <=? 62).
+(* An index equal to MaxInt64 is never generated and is refused too: integrate.HorizontalZoom / VerticalZoom enumerate `for v := min; v <= max; v++`,
+   which never terminates when max = MaxInt64 (a defect of the library on an invalid ID, outside this property; reported). *)
+Definition idx_small (i : eid) : bool := (ex i <? 2 ^ 63 - 1) && (ey i <? 2 ^ 63 - 1) && (ef i <? 2 ^ 63 - 1).
+Definition ext_small (s : string) : bool := match parse_eid s with Some i => zoom_small i && idx_small i | None => true end.
 
 Definition judge (m : result bool) (chk : result bool -> bool) (obs : val) : verdict :=
   match obs_res obs with
@@ -26,16 +34,18 @@ Definition judge (m : result bool) (chk : result bool -> bool) (obs : val) : ver
   | None => mkv false false "-"%string (res_val m)       (* panic / timeout / malformed observation *)
   end.
 
-(* property checkers per form; `fun _ => true` outside the quantifier *)
+(* property checkers per form: the full specification when every member is inside the quantifier, the per-member fallback otherwise *)
 Definition chk_ext (l1 l2 : list string) : result bool -> bool :=
   match parse_all l1, parse_all l2 with
-  | Some e1, Some e2 => if forallb validb e1 && forallb validb e2 then check_overlap e1 e2 else fun _ => true
-  | _, _ => fun _ => true
+  | Some e1, Some e2 => if forallb validb e1 && forallb validb e2 then check_overlap e1 e2
+                        else check_fallback (vmem l1) (vmem l2) (nonnil l1) (nonnil l2)
+  | _, _ => check_fallback (vmem l1) (vmem l2) (nonnil l1) (nonnil l2)
   end.
 Definition chk_sp (l1 l2 : list string) : result bool -> bool :=
   match map_opt parse_sid l1, map_opt parse_sid l2 with
-  | Some e1, Some e2 => if forallb sdomb e1 && forallb sdomb e2 then check_overlap e1 e2 else fun _ => true
-  | _, _ => fun _ => true
+  | Some e1, Some e2 => if forallb sdomb e1 && forallb sdomb e2 then check_overlap e1 e2
+                        else check_fallback (smem l1) (smem l2) (nonnil l1) (nonnil l2)
+  | _, _ => check_fallback (smem l1) (smem l2) (nonnil l1) (nonnil l2)
   end.
 
 Definition run_ext_pair (a b : string) (obs : val) : verdict :=
@@ -61,7 +71,7 @@ Definition d_sp_array (args : list val) (obs : val) : verdict :=
   end.
 
 (* getSpatialIdAttrs(s) = (zoom, f, x, y, err): observed as the list of the four integers, or an error.
-   prop: a well-formed ID yields its four fields (what the overlap check relies on); malformed strings are outside the quantifier. *)
+   prop: a well-formed ID yields its four fields (what the overlap check relies on); any other string must be refused (the documented error). *)
 Definition d_attrs (args : list val) (obs : val) : verdict :=
   match args with
   | [VS s] =>
@@ -69,7 +79,7 @@ Definition d_attrs (args : list val) (obs : val) : verdict :=
       let mv := match m with Ok (z, f, x, y) => of_LZ [z; f; x; y] | Err => VE (of_LZ [0; 0; 0; 0]) end in
       match m, obs with
       | Err, VE _ => mkv true true "-"%string mv
-      | Err, _ => mkv false true "-"%string mv
+      | Err, _ => mkv false false "-"%string mv
       | Ok (z, f, x, y), _ =>
           match as_LZ obs with
           | Some [z'; f'; x'; y'] => let e := (z =? z') && (f =? f') && (x =? x') && (y =? y') in mkv e e "-"%string mv
@@ -163,6 +173,17 @@ Definition as_keys (v : val) : option (list key4) :=
 Definition as_LB (v : val) : option (list bool) :=
   match as_L v with Some l => all_opt (map as_B l) | None => None end.
 Definition key_small (q : key4) : bool := let '(z, _, _, _) := q in (0 <=? z) && (z <=? 62).
+(* per query: with every key in range the answer is the relation exactly; with some key out of range (masked by the library) an in-range
+   key related to an in-range query must still give a hit; a query out of range is not judged *)
+Fixpoint tree_prop (K Q : list key4) (o : list bool) : bool :=
+  match Q, o with
+  | q :: Qr, b :: orr =>
+      (if in_range4b q then
+         if forallb in_range4b K then Bool.eqb b (existsb (fun k => rel4b k q) K)
+         else implb (existsb (fun k => rel4b k q) (filter in_range4b K)) b
+       else true) && tree_prop K Qr orr
+  | _, _ => true
+  end.
 Definition d_tree (args : list val) (obs : val) : verdict :=
   match args with
   | [ks; qs] =>
@@ -173,9 +194,7 @@ Definition d_tree (args : list val) (obs : val) : verdict :=
             let m := tree_model K Q in
             match as_LB obs with
             | Some o =>
-                mkv (list_eqb Bool.eqb m o)
-                    (if forallb in_range4b K && forallb in_range4b Q then list_eqb Bool.eqb (tree_ref K Q) o else true)
-                    "-"%string (VL (map VB m))
+                mkv (list_eqb Bool.eqb m o) (Nat.eqb (length o) (length Q) && tree_prop K Q o) "-"%string (VL (map VB m))
             | None => match obs with VNil => bad_case | _ => mkv false false "-"%string (VL (map VB m)) end
             end
       | _, _ => bad_case
@@ -207,16 +226,50 @@ Theorem chk_sp_is_spec l1 l2 e1 e2 obs : map_opt parse_sid l1 = Some e1 -> map_o
   forallb sdomb e1 = true -> forallb sdomb e2 = true ->
   (chk_sp l1 l2 obs = true <-> spec_overlap e1 e2 obs).
 Proof. intros P1 P2 V1 V2. unfold chk_sp. rewrite P1, P2, V1, V2. cbn [andb]. apply check_overlap_sound. Qed.
-(* the models' own answers pass: agreement with the model (corr) implies the property check (prop) on the quantifier *)
+(* on every other input the checker is the per-member fallback, which decides spec_fallback *)
+Theorem chk_ext_otherwise l1 l2 obs : chk_ext l1 l2 obs = true ->
+  (exists e1 e2, parse_all l1 = Some e1 /\ parse_all l2 = Some e2 /\ forallb validb e1 = true /\ forallb validb e2 = true /\ spec_overlap e1 e2 obs) \/
+  spec_fallback (vmem l1) (vmem l2) (nonnil l1) (nonnil l2) obs.
+Proof.
+  unfold chk_ext. destruct (parse_all l1) as [e1|] eqn:P1; [|right; now apply check_fallback_sound].
+  destruct (parse_all l2) as [e2|] eqn:P2; [|right; now apply check_fallback_sound].
+  destruct (forallb validb e1) eqn:V1; [|right; now apply check_fallback_sound].
+  destruct (forallb validb e2) eqn:V2; [|right; now apply check_fallback_sound]. cbn [andb].
+  intros H. left. exists e1, e2. repeat split; auto. now apply check_overlap_sound.
+Qed.
+Theorem chk_sp_otherwise l1 l2 obs : chk_sp l1 l2 obs = true ->
+  (exists e1 e2, map_opt parse_sid l1 = Some e1 /\ map_opt parse_sid l2 = Some e2 /\ forallb sdomb e1 = true /\ forallb sdomb e2 = true /\ spec_overlap e1 e2 obs) \/
+  spec_fallback (smem l1) (smem l2) (nonnil l1) (nonnil l2) obs.
+Proof.
+  unfold chk_sp. destruct (map_opt parse_sid l1) as [e1|] eqn:P1; [|right; now apply check_fallback_sound].
+  destruct (map_opt parse_sid l2) as [e2|] eqn:P2; [|right; now apply check_fallback_sound].
+  destruct (forallb sdomb e1) eqn:V1; [|right; now apply check_fallback_sound].
+  destruct (forallb sdomb e2) eqn:V2; [|right; now apply check_fallback_sound]. cbn [andb].
+  intros H. left. exists e1, e2. repeat split; auto. now apply check_overlap_sound.
+Qed.
+(* the models' own answers pass on EVERY input: agreement with the model (corr) implies the property check (prop) *)
 Theorem model_passes_ext l1 l2 : chk_ext l1 l2 (ext_array l1 l2) = true.
 Proof.
-  unfold chk_ext. destruct (parse_all l1) as [e1|] eqn:P1; [|reflexivity]. destruct (parse_all l2) as [e2|] eqn:P2; [|reflexivity].
-  destruct (forallb validb e1) eqn:V1; [|reflexivity]. destruct (forallb validb e2) eqn:V2; [|reflexivity]. cbn [andb].
+  unfold chk_ext. destruct (parse_all l1) as [e1|] eqn:P1; [|apply ext_array_fallback]. destruct (parse_all l2) as [e2|] eqn:P2; [|apply ext_array_fallback].
+  destruct (forallb validb e1) eqn:V1; [|apply ext_array_fallback]. destruct (forallb validb e2) eqn:V2; [|apply ext_array_fallback]. cbn [andb].
   apply (ext_array_passes l1 l2 e1 e2 P1 P2); [now apply forallb_validb|now apply forallb_validb].
 Qed.
 Theorem model_passes_sp l1 l2 : chk_sp l1 l2 (sp_array l1 l2) = true.
 Proof.
-  unfold chk_sp. destruct (map_opt parse_sid l1) as [e1|] eqn:P1; [|reflexivity]. destruct (map_opt parse_sid l2) as [e2|] eqn:P2; [|reflexivity].
-  destruct (forallb sdomb e1) eqn:V1; [|reflexivity]. destruct (forallb sdomb e2) eqn:V2; [|reflexivity]. cbn [andb].
+  unfold chk_sp. destruct (map_opt parse_sid l1) as [e1|] eqn:P1; [|apply sp_array_fallback]. destruct (map_opt parse_sid l2) as [e2|] eqn:P2; [|apply sp_array_fallback].
+  destruct (forallb sdomb e1) eqn:V1; [|apply sp_array_fallback]. destruct (forallb sdomb e2) eqn:V2; [|apply sp_array_fallback]. cbn [andb].
   apply (sp_array_passes l1 l2 e1 e2 P1 P2); [now apply forallb_sdomb|now apply forallb_sdomb].
+Qed.
+(* the trie model passes the direct-library checker on every input *)
+Theorem model_passes_tree K Q : tree_prop K Q (tree_model K Q) = true.
+Proof.
+  unfold tree_model. induction Q as [|q Qr IH]; [reflexivity|]. cbn [map tree_prop]. rewrite IH, andb_true_r.
+  destruct (in_range4b q) eqn:Rq; [|reflexivity]. apply in_range4b_spec in Rq.
+  destruct (forallb in_range4b K) eqn:RK.
+  - assert (HK : forall k, In k K -> in_range4 k) by (intros k Hk; apply in_range4b_spec; now apply (proj1 (forallb_forall _ _) RK)).
+    pose proof (tree_model_is_ref K [q] HK ltac:(intros x [<-|[]]; exact Rq)) as E. unfold tree_model, tree_ref in E. cbn in E.
+    injection E as ->. apply eqb_reflx.
+  - destruct (existsb (fun k => rel4b k q) (filter in_range4b K)) eqn:E; [|reflexivity]. cbn [implb].
+    apply existsb_exists in E. destruct E as (k & Hk & R). apply filter_In in Hk. destruct Hk as [Hk Rk]. apply in_range4b_spec in Rk.
+    apply overlap_spec. exists (tkey k). split; [now apply in_map|]. apply tkey_overlap_iff; auto. now apply rel4b_spec.
 Qed.
